@@ -142,7 +142,10 @@ func wrap(t *rt.Thread, c *rt.GoCont) (rt.Cont, error) {
 	w := rt.NewGoFunction(func(t *rt.Thread, c *rt.GoCont) (rt.Cont, error) {
 		res, err := co.Resume(t, c.Etc())
 		if err != nil {
-			return nil, err
+			// Propagate the error value as a new error of the calling thread
+			// (the coroutine's error has already gone through error handling
+			// in the coroutine).
+			return nil, rt.NewError(rt.ErrorValue(err)).AddContext(c, 0)
 		}
 		return c.PushingNext(t.Runtime, res...), nil
 	}, "wrap", 0, true)
